@@ -1,6 +1,6 @@
 //! Generate ingredients lists from recipes
 
-use std::collections::BTreeMap;
+use std::collections::{btree_map::Entry, BTreeMap};
 
 use serde::Serialize;
 
@@ -208,12 +208,18 @@ impl IngredientList {
         let mut categorized = CategorizedIngredientList::default();
         for (name, quantity) in self.0 {
             if let Some(info) = iifno.get(name.as_str()) {
-                categorized
+                let list = categorized
                     .categories
                     .entry(info.category.to_string())
-                    .or_default()
-                    .0
-                    .insert(info.common_name.to_string(), quantity);
+                    .or_default();
+                match list.0.entry(info.common_name.to_string()) {
+                    Entry::Vacant(e) => {
+                        e.insert(quantity);
+                    }
+                    // another ingredient of the list has the same common name,
+                    // keep the amounts of both
+                    Entry::Occupied(mut e) => e.get_mut().extend_unmerged(quantity),
+                }
             } else {
                 categorized.other.0.insert(name, quantity);
             }
